@@ -820,9 +820,15 @@ func opHandlerBind(env *LEnv, args *LVal) *LVal {
 				// even if a Go panic propagates through the handler.
 				env.Runtime.PushCondition(val)
 				defer env.Runtime.PopCondition()
-				expr := []*LVal{hval, Quote(Symbol(val.Str))}
-				expr = append(expr, val.Copy().Cells...)
-				return env.Eval(SExpr(expr))
+				// The handler receives the condition name and the error's
+				// data.  The data cells are values, not expressions: they are
+				// handed over as they are, never evaluated a second time.
+				hargs := []*LVal{Quote(Symbol(val.Str))}
+				hargs = append(hargs, val.Copy().Cells...)
+				if hval.FunType == LFunNone {
+					return env.FunCall(hval, SExpr(hargs))
+				}
+				return env.Eval(SExpr(append([]*LVal{hval}, hargs...)))
 			}
 			return val
 		}
